@@ -390,6 +390,7 @@ func initBigFloat() {
 			return self, value.Undefined
 		},
 	)
+	Alias(c, "to_bigfloat", "to_big_float")
 	Def(
 		c,
 		"to_float",
